@@ -643,6 +643,15 @@ def gen_c03(tier, seed):
                   {"op": "sweep", "base": bk(o), "mode": "crash_both", "sample": 0 if tier != "quick" else 24, "seed": seed * 100 + i,
                    "then": AFTER_CRASH + (filtered_reads(t1) if prev != "none" else []) + [bk(o), {"op": "restore", "band": -1}]}]
         scens.append({"id": sid("C03", prev, i), "props": ["C03"], "mode": "clean", "tags": ["crash", prev], "steps": steps})
+    # a backup stopped by an error it returns (a write that fails), the process living on and the
+    # storage working again: what it recorded is still a prefix of the new content
+    for i in range(8 if tier == "quick" else 100):
+        _, t1, o = shape_tree(rng) if i % 2 else ("combine",) + combine_tree(rng)
+        t1 = t1 + [node("/zz_large", "File", bytes((j % 5) + 1 for j in range(o["M"] + 3 if o["M"] < 50 else 9)), mt=(1600011000, 0))]
+        steps = [{"op": "tree", "tree": mut(rng, t1, maxlen=4)}, bk(o), {"op": "tree", "tree": t1},
+                 {"op": "sweep", "base": bk(o), "mode": "fail", "verbs": ["write"], "kinds": ["Other"], "sample": 0 if tier != "quick" else 20,
+                  "seed": seed * 100 + i, "then": [{"op": "versions"}, {"op": "list_all"}, {"op": "restore_all"}, bk(o), {"op": "restore", "band": -1}]}]
+        scens.append({"id": sid("C03", "abort", i), "props": ["C03"], "mode": "fault", "tags": ["abort-by-error"], "steps": steps})
     # many small files: combined blocks that fill in the middle of a group, at its end, on the last file
     for i in range(8 if tier == "quick" else 100):
         t1, o = combine_tree(rng)
@@ -686,6 +695,9 @@ def gen_c04(tier, seed):
         steps = []
         if rng.random() < 0.6:
             steps += [{"op": "tree", "tree": mut(rng, t1, maxlen=6)}, bk(rng.choice(OPTS_POOL[:5]))]
+        if i % 5 == 4:
+            # the newest earlier version is an interrupted one that holds data
+            steps += [{"op": "tree", "tree": mut(rng, t1, maxlen=6)}, bk(rng.choice(OPTS_POOL[:5]), crash_from_end=rng.randrange(1, 4))]
         writes = i % 3 != 2
         sw = {"op": "sweep", "base": bk(o), "mode": "fail", "sample": 0 if tier != "quick" else (48 if writes else 24),
               "seed": seed * 100 + i, "then": after}
@@ -804,6 +816,33 @@ def gen_c05(tier, seed):
                 sw["verbs"] = ["read", "list_dir", "metadata"]
             steps.append(sw)
         scens.append({"id": sid("C05", kind, i), "props": ["C05"], "mode": "clean", "tags": [kind, fam], "steps": steps})
+    # archives holding versions written by older releases (a BANDTAIL without a hunk count), written in
+    # the documented format by the harness: deleting other versions / gc must not touch what they reference
+    import hashlib
+
+    def short_of(content):
+        full = hashlib.blake2b(bytes(content), digest_size=64).hexdigest()
+        return full[:8] + "-" + hashlib.blake2b(full.encode(), digest_size=4).hexdigest()
+
+    for i in range(6 if tier == "quick" else 60):
+        nb = rng.randrange(2, 4)
+        blocks, bands = [], []
+        for b in range(nb):
+            es = [{"p": [], "k": "Dir", "mt": [1600012000, 0], "mode": 493, "u": "root", "g": "root", "a": [], "t": []}]
+            for j, nm in enumerate(rng.sample(["a", "b", "c", "d"], rng.randrange(1, 4))):
+                c = [rng.choice([1, 2, 3]), b + 10, j] if rng.random() < 0.7 else [5, 5]
+                if c not in blocks:
+                    blocks.append(c)
+                es.append({"p": cvlib.comps("/" + nm), "k": "File", "mt": [1600012000 + b, 0], "mode": 420, "u": "root", "g": "root",
+                           "a": [{"h": short_of(c), "s": 0, "n": len(c)}], "t": []})
+            es.sort(key=lambda e: [bytes(x) for x in e["p"]])
+            hunks = [{"n": k, "es": es[k * 2:k * 2 + 2]} for k in range((len(es) + 1) // 2)]
+            bands.append({"id": b, "head": True, "tail": True, "hunks": hunks, "legacy_tail": rng.random() < 0.6})
+        garbage = [9, 9, 9]
+        steps = [{"op": "layout", "bands": bands, "blocks": blocks + [garbage]}, {"op": "restore_all"},
+                 {"op": "delete", "bands": rng.choice([[nb - 1], [0], []]), "dry": False}, {"op": "restore_all"},
+                 {"op": "delete", "bands": [], "dry": False}, {"op": "restore_all"}, {"op": "validate", "quick": False}]
+        scens.append({"id": sid("C05", "legacy", i), "props": ["C05"], "mode": "clean", "no_create": True, "tags": ["plain", "legacy-tail"], "steps": steps})
     # many blocks: two versions of 120-200 one-block files sharing half of them, one version deleted
     for i in range(2 if tier == "quick" else 10):
         n = rng.choice([120, 160, 200])
